@@ -55,7 +55,7 @@ class Sweep:
         if allow_consts and rng.random() < 0.4:
             for k in rng.sample(sorted(CONST_ARGS), rng.randint(1, 2)):
                 self.consts[k] = rng.randint(0, 5)
-        self.kind = rng.choice([0, 0, 1, 2, 3, 4, 5, 6, 7, 8]) if kind is None else kind
+        self.kind = rng.choice([0, 0, 1, 2, 3, 4, 5, 6, 7, 8, 9, 10]) if kind is None else kind
         # rank maps (order preserving) for every swept argument
         self.rank = {a: {v: i for i, v in enumerate(sorted(self.pools[a]))} for a in names}
         self.unrank = {a: {i: v for v, i in self.rank[a].items()} for a in names}
@@ -143,6 +143,10 @@ def result_of_kind(kind, c):
         return (c, f"s{c}", [c, c, c])
     if kind == 7:
         return (c % 2 == 1, [[c, c]])
+    if kind == 9:
+        return (c,)
+    if kind == 10:
+        return [c]
     return {"v": c}
 
 
